@@ -560,7 +560,48 @@ def gen_cases(chk):
                 found += 1
                 if found >= (2 if not full else 6):
                     break
+    cases.append(clip_observation_case())
     return cases, rng
+
+
+def clip_observation_case():
+    """implicit scheme, nulBound: the un-clipped foot of both nodes lies outside [rPts[0], rMax], the kernel clips it
+    and writes the spline of f at the clipped foot (pol_impl_fill_unreachable) - not the fill value 0.
+    Spaces of the Coq witness (pi := 3, degree 1), dt = 2, tol = 3: one sweep."""
+    Z = lambda xs: [F(x) for x in xs]
+    sp = {'path': 'nu', 'pq': 1, 'pr': 1, 'nq': 2, 'nr': 2, 'qb': Z([0, 3, 6]), 'rb': Z([1, 2]), 'uq': True, 'ur': True,
+          'kq': Z([-3, 0, 3, 6, 9]), 'kr': Z([1, 1, 2, 2]), 'gq': Z([0, 3]), 'gr': Z([1, 2]), 'kr_ext': Z([1, 1, 2, 2]),
+          'rows': 3, 'cols': 2}
+    return {'scheme': 'impl', 'sp': sp, 'PI': F(3), 'dt': F(2), 'B0': F(1), 'v': F(0), 'nul': True, 'consts': list(CONSTS),
+            'kind': 'clip-observation', 'qPts': [F(3, 2)], 'rPts': Z([1, 2]), 'constructed': 'unclipped-foot-outside',
+            'cphi': [Z([-3, 6]), Z([3, -6]), Z([-3, 6])], 'cpol': [Z([1, 2]), Z([3, 4]), Z([1, 2])], 'tol': F(3), 'fuel': 3}
+
+
+def clip_observation(c, out):
+    """what the real (exactly executed) implicit kernel did on clip_observation_case, next to what the property's fill
+    clause would give; computed here from the spline evaluator only"""
+    lifted(c['PI'])
+    nu = _NS['nu']
+    sp = c['sp']
+    kq, kr = qlift.arr(sp['kq']), qlift.arr(sp['kr'])
+    cphi, cpol = qlift.arr(c['cphi']), qlift.arr(c['cpol'])
+    ev = nu['nu_eval_spline_2d_scalar']
+    mf = c['dt'] / c['B0']
+    rmin, rmax = c['rPts'][0], c['rPts'][-1]
+    q = c['qPts'][0]
+    obs = []
+    for j, r in enumerate(c['rPts']):
+        b = ev(q, r, kq, 1, kr, 1, cphi, 1, 0) / r
+        euler = r + b * mf
+        dk = ev(q, euler, kq, 1, kr, 1, cphi, 1, 0) / euler if rmin <= euler <= rmax else F(0)
+        unclipped = r + (b + dk) * mf / 2
+        clipped = min(max(unclipped, rmin), rmax)
+        obs.append({'node': [0, j], 'euler_foot_r': str(euler), 'unclipped_foot_r': str(unclipped),
+                    'outside_radial_domain': not (rmin <= unclipped <= rmax), 'clipped_foot_r': str(clipped),
+                    'spline_of_f_at_clipped_foot': str(ev(q, clipped, kq, 1, kr, 1, cpol, 0, 0)),
+                    'value_written_by_the_kernel': str(qparse(out[2][j])) if out[0] == 'ok' else None,
+                    'value_of_the_fill_clause_nulBound': '0'})
+    return obs
 
 
 def weight(c):
@@ -755,6 +796,17 @@ def run():
                 node_classes[x] = node_classes.get(x, 0) + 1
         chk.cov['certificates_checked'] += 1          # direct oracle + closed forms evaluated on this case
         judge(chk, c, r, m)
+    # observation (not a violation): what the implicit kernel writes when the un-clipped foot is outside
+    clip_obs = None
+    for c, r in zip(cases, res):
+        if c['kind'] == 'clip-observation' and isinstance(r, dict):
+            clip_obs = {'exact_execution_of_the_real_kernel': clip_observation(c, r['impl']), 'sweeps': r['impl'][1] if r['impl'][0] == 'ok' else None,
+                        'theorem': 'pol_impl_fill_unreachable',
+                        'note': 'the implicit scheme clips the foot into [rPts[0], rMax] before the fill test: the value written is the '
+                                'spline of f at the clipped foot, also with nulBound; the property\'s fill clause describes the explicit scheme only. '
+                                'A change of this behaviour shows up as a mismatch of this case with the oracle / model.'}
+            if not all(o['outside_radial_domain'] for o in clip_obs['exact_execution_of_the_real_kernel']):
+                raise core.BrokenCheck('clip observation case: the un-clipped foot is not outside the radial domain')
     # cross-check of the extraction inside Coq (vm_compute) on cheap cases
     cheap = [i for i, c in enumerate(cases) if weight(c) < 0.4 and isinstance(res[i], dict)]
     rs = random.Random(chk.seed + 5)
@@ -781,14 +833,19 @@ def run():
              'dt of either sign x basis 6x6..12x10 x degrees 1..4, plus second-pass variants whose foot is exactly '
              'rPts[0] / rPts[-1]; non-trivial = potential not constant; distinct = distinct model answer',
         extra={'node_classes': node_classes, 'outcomes': outcomes, 'coq_vm_compute_crosschecked': len(samp),
-               'exact_run_s': round(t_exact, 1), 'model_run_s': round(t_model, 1), 'float_stages': fl},
+               'exact_run_s': round(t_exact, 1), 'model_run_s': round(t_model, 1), 'float_stages': fl,
+               'implicit_clipping_observation': clip_obs},
         uncovered=['"explicit and implicit variants agree to third order in dt" is asymptotic: not proved, not tested',
                    '"the implicit iteration terminates" is refuted as quantified (pol_impl_terminates_refuted); proved: one '
-                   'sweep for constant potentials, and the fixed-point property within tol whenever the loop returns',
-                   'rigid rotation by omega dt/B0 for phi = omega r^2/2 is tested exactly (closed form on the code\'s exact '
-                   'output), not proved (it needs "r^2 is reproduced by the spline space")',
+                   'sweep for constant potentials and for rigid rotations, and the fixed-point property within tol whenever the loop returns',
+                   'rigid rotation (pol_rigid_rotation_expl/_impl) is proved from the evaluator facts d_r phi = omega r, d_theta phi = 0; '
+                   'that a spline space of degree >= 2 reproduces omega r^2/2 with these derivatives is not proved - it is tested '
+                   'exactly (blossom coefficients, closed form on the code\'s exact output, both spline paths)',
+                   'const_phi_id (pol_const_phi_id_*_full_thm, pol_interp_then_advect_const_*): that the two derivative cross '
+                   'evaluations of the potential at the nodes return (well-formed spline space, no zero denominators) is a hypothesis',
                    'for the implicit scheme the fill rule is unreachable (feet are clipped to the radial boundary): '
-                   'pol_impl_fill_unreachable; the property\'s fill clause only describes the explicit scheme',
+                   'pol_impl_fill_unreachable; the property\'s fill clause only describes the explicit scheme (recorded as '
+                   'implicit_clipping_observation, exact and binary64)',
                    'that the spline derivative is d/dx of the spline is C07\'s (partial) clause, not repeated here'])
 
 
